@@ -137,6 +137,26 @@ func (r *R) editOnce(t *V, o *TreeOpts) (*V, string) {
 			}
 		}
 	}
+	// on long containers: the LAST scalar leaves (a comparison that splits the work by size may never look at the tail)
+	if len(ns) > 40 && r.chance(0.35) {
+		for k := len(ns) - 1; k >= 0 && k >= len(ns)-6; k-- {
+			m := ns[k]
+			switch m.K {
+			case KInt:
+				m.I++
+				return c, "edit:tail-int-nudged"
+			case KStr:
+				m.S += "!"
+				return c, "edit:tail-string-extended"
+			case KBool:
+				m.B = !m.B
+				return c, "edit:tail-bool-flipped"
+			case KNil:
+				*m = *vint(0)
+				return c, "edit:tail-nil->0"
+			}
+		}
+	}
 	n := ns[r.Intn(len(ns))]
 	switch r.Intn(10) {
 	case 0: // change one scalar's kind, keeping "the same" value where that makes sense
@@ -752,7 +772,7 @@ func genC17(r *R, n int, tier string, out *Out) {
 			ln = 60 + r.Intn(200)
 		}
 		if r.chance(0.03) {
-			ln = pickOf(r, stressSizes)
+			ln = r.stressSize()
 		}
 		var elems []*V
 		tag := ""
